@@ -4,8 +4,10 @@ package main
 
 import (
 	"fmt"
+	"go/constant"
 	"go/token"
 	"go/types"
+	"math/bits"
 	"sort"
 	"strings"
 
@@ -683,6 +685,58 @@ func ruleMetaLogic(r *Run, rule string, k *metaKind) {
 			sort.Strings(ks)
 			return strings.Join(ks, ",")
 		}()
+		// early exits from the combination loop: a success return before all elements were combined is sound only when the
+		// accumulated result is absorbing for the connective in force — empty under And. Under Or nothing is absorbing.
+		loops := loopsOf(fn)
+		for _, ret := range returnsOf(fn) {
+			if classifyErr(ret) == ErrNonNil {
+				continue
+			}
+			inLoop := false
+			for _, l := range loops {
+				for b := range l.Blocks {
+					if b != l.Header && (b == ret.Block() || b.Dominates(ret.Block())) {
+						inLoop = true
+					}
+				}
+			}
+			if !inLoop {
+				continue
+			}
+			guardEmpty, guardAnd := false, false
+			for b := ret.Block(); b != nil; b = b.Idom() {
+				d := b.Idom()
+				if d == nil {
+					break
+				}
+				iff, isIf := d.Instrs[len(d.Instrs)-1].(*ssa.If)
+				if !isIf || !(d.Succs[0] == b || d.Succs[0].Dominates(b)) {
+					continue
+				}
+				cs := c.S(iff.Cond)
+				if strings.HasPrefix(cs, roaringBitmap+"IsEmpty(") {
+					guardEmpty = true
+				}
+				if bo, isBo := iff.Cond.(*ssa.BinOp); isBo && bo.Op == token.EQL && strings.HasSuffix(c.S(bo.X), ".Logic") {
+					if v, _ := constString(bo.Y); v != "" && v == declaredConstValue(w, "AND") {
+						guardAnd = true
+					}
+				}
+			}
+			okExit := false
+			why := ""
+			switch iterates {
+			case "filters":
+				okExit = guardEmpty
+				why = "an early exit from the intersection of simple filters must be guarded by the result being empty"
+			case "group":
+				okExit = guardEmpty && guardAnd
+				why = fmt.Sprintf("an early exit from a group must be guarded by Logic == AND and an empty result (found: empty=%v, AND=%v): under OR a later filter can still add documents", guardEmpty, guardAnd)
+			case "groups":
+				why = "groups are united: no early exit is sound"
+			}
+			r.Check(okExit, rule, "logic:early-exit:"+iterates, w.InstrPos(ret)+" "+name, "the early exit happens only when the accumulated result is empty under And (absorbing)", why)
+		}
 		switch iterates {
 		case "filters":
 			r.Check(names == "And", rule, "logic:simple", site, "simple filters are intersected (And)", "simple filters are combined with {"+names+"}")
@@ -748,6 +802,54 @@ func ruleMetaLogic(r *Run, rule string, k *metaKind) {
 		}
 	})
 	r.Check(okAll, rule, "logic:execute:empty", site, "no filters ⇒ all live documents (Clone(allDocs))", "Execute has no all-documents answer for an empty filter list")
+}
+
+// ruleMetaBSIWidth: every bit-sliced index comet creates spans all 64 bit planes. roaring's comparison operators cut the
+// operand to the planes that exist (and read a negative operand as unsigned when no stored value is negative): an
+// auto-sized BSI answers Lt(100) as Lt(100 mod 2^width).
+func ruleMetaBSIWidth(r *Run, rule string) {
+	w := r.W
+	r.Doc(rule, "range operands outside the bit span of the stored values are truncated by the BSI: wrong documents match")
+	n := 0
+	for _, fn := range w.Funcs {
+		for _, cs := range callsIn(fn, func(cc *ssa.CallCommon) bool {
+			g := staticCallee(cc)
+			if g == nil || g.Pkg == nil || g.Pkg == w.SPkg {
+				return false
+			}
+			res := g.Signature.Results()
+			return g.Signature.Recv() == nil && res.Len() == 1 && strings.HasSuffix(types.TypeString(res.At(0).Type(), nil), ".BSI") && strings.HasPrefix(g.Name(), "New")
+		}) {
+			n++
+			name := w.Name(fn)
+			cc := cs.Common()
+			key := fmt.Sprintf("bsi:width:%s#%d", name, n)
+			site := w.InstrPos(cs) + " " + name
+			width := 0
+			known := len(cc.Args) > 0
+			for _, a := range cc.Args {
+				k, ok := a.(*ssa.Const)
+				if !ok || k.Value == nil || k.Value.Kind() != constant.Int {
+					known = false
+					continue
+				}
+				if l := bits.Len64(uint64(k.Int64())); l > width {
+					width = l
+				}
+			}
+			switch {
+			case len(cc.Args) == 0:
+				r.Bad(rule, key, site, staticCallee(cc).Name()+" creates an auto-sized BSI: comparison operands wider than the stored values are truncated")
+			case !known:
+				r.Und(rule, key, site, "BSI range arguments are not constants")
+			default:
+				r.Check(width == 64, rule, key, site, "the BSI spans all 64 bit planes (two's complement operands are compared in full)", fmt.Sprintf("the BSI has %d bit planes: wider or negative operands are truncated", width))
+			}
+		}
+	}
+	if n < 2 {
+		r.add(rule, "bsi:width:floor", "-", fmt.Sprintf("%d BSI constructions found, floor is 2 (Add path and ReadFrom)", n), Floor)
+	}
 }
 
 func declaredConstValue(w *World, name string) string {
